@@ -660,3 +660,112 @@ func memberCall(f km.Fact, pol bool) (list, elem ssa.Value, ok bool) {
 	}
 	return mp.list, km.Unwrap(args[mp.elemIdx]), true
 }
+
+// intersectPredicate recognises a module function g(a, b) bool that can return true only when an element of its
+// parameter i equals an element of its parameter j: slices.ContainsFunc(a, func(e) bool { return
+// slices.Contains(b, e) }) (or a closure that is itself a membership predicate over b), or hand-written nested
+// loops whose every `return true` is under such an equality. Only the "true implies a common element" direction
+// is established.
+func intersectPredicate(c *km.Ctx, s *km.Sem, g *ssa.Function) (int, int, bool) {
+	if g == nil || g.Blocks == nil {
+		return 0, 0, false
+	}
+	res := g.Signature.Results()
+	if res.Len() != 1 || res.At(0).Type().String() != "bool" {
+		return 0, 0, false
+	}
+	pidx := func(v ssa.Value) int {
+		v = km.CellOrigin(km.Unwrap(v))
+		for i, p := range g.Params {
+			if ssa.Value(p) == v {
+				return i
+			}
+		}
+		return -1
+	}
+	rcs := s.RetCases(g)
+	if len(rcs) == 1 {
+		if cl, ok := km.Unwrap(rcs[0].Results[0]).(*ssa.Call); ok {
+			name := km.CalleeFull(cl.Common())
+			if i := strings.Index(name, "["); i > 0 {
+				name = name[:i]
+			}
+			if name == "slices.ContainsFunc" && len(cl.Common().Args) == 2 {
+				a := pidx(cl.Common().Args[0])
+				if mc, isMC := km.Unwrap(cl.Common().Args[1]).(*ssa.MakeClosure); isMC && a >= 0 {
+					h := mc.Fn.(*ssa.Function)
+					mp := memberPredicate(h)
+					if mp.ok && mp.elemIdx == 0 {
+						// the list the closure searches: one of its captured variables, bound to a parameter of g
+						lv := km.Unwrap(mp.list)
+						if u, isU := lv.(*ssa.UnOp); isU {
+							lv = u.X
+						}
+						for fi, fv := range h.FreeVars {
+							if ssa.Value(fv) == lv && fi < len(mc.Bindings) {
+								b := mc.Bindings[fi]
+								// captured by reference: the cell holding the parameter
+								if al, isA := b.(*ssa.Alloc); isA {
+									if j := pidx(al); j >= 0 {
+										return a, j, true
+									}
+								}
+								if j := pidx(b); j >= 0 {
+									return a, j, true
+								}
+							}
+						}
+					}
+				}
+			}
+		}
+	}
+	// nested loops: every accepting return carries element(param i) == element(param j)
+	elemOf := func(v ssa.Value) int {
+		u, ok := km.Unwrap(v).(*ssa.UnOp)
+		if !ok || u.Op != token.MUL {
+			return -1
+		}
+		ia, ok := u.X.(*ssa.IndexAddr)
+		if !ok {
+			return -1
+		}
+		return pidx(ia.X)
+	}
+	ri, rj, nTrue := -1, -1, 0
+	for _, rc := range rcs {
+		cst, isC := km.Unwrap(rc.Results[0]).(*ssa.Const)
+		if !isC {
+			return 0, 0, false
+		}
+		if km.ValStr(cst) != "true" {
+			continue
+		}
+		nTrue++
+		okAll := len(rc.State) > 0 && rc.State.All(func(k km.Conj) bool {
+			for _, f := range k.List() {
+				if f.Op != token.EQL || f.Y == nil {
+					continue
+				}
+				i, j := elemOf(f.X), elemOf(f.Y)
+				if i >= 0 && j >= 0 && i != j {
+					if i > j {
+						i, j = j, i
+					}
+					if ri < 0 || (ri == i && rj == j) {
+						ri, rj = i, j
+						return true
+					}
+				}
+			}
+			return false
+		})
+		if !okAll {
+			return 0, 0, false
+		}
+	}
+	if nTrue == 0 || ri < 0 {
+		return 0, 0, false
+	}
+	return ri, rj, true
+}
